@@ -206,7 +206,7 @@ func FamiliesC09(tier string) []world.Family {
 }
 
 func OptionsC09(tier string) Options {
-	return Options{MaxRetries: 1, SizeVariants: []uint{0}, FinMode: FinAll}
+	return Options{MaxRetries: 1, SizeVariants: []uint{0}, FinMode: FinAll, L1OrphanEpilogue: true, L2ReorgEpilogue: true}
 }
 
 const RuleC09 = "unit = one scenario (operation sequence of a world family, all sequences up to the length bound, de-duplicated by " +
@@ -214,7 +214,9 @@ const RuleC09 = "unit = one scenario (operation sequence of a world family, all 
 	"every stage of the L2 syncer × every reachable aggsender storage state × every position of the L1 finalized pointer from where " +
 	"it stood at that stage up to one block past the L1 info syncer's last block; every built certificate is one evaluation and " +
 	"every imported bridge exit in it is verified. non-trivial = at least one certificate built; distinct = distinct (scenario, " +
-	"stage, storage state, finalized position, leaf count, claim, leaf index)."
+	"stage, storage state, finalized position, leaf count, claim, leaf index). After the last stage: (a) the L1 node answers with another hash for the " +
+	"last, never finalized L1 block the syncer holds (orphaned), finalized pointer at and past it: a certificate built then must not name a root containing its leaves; " +
+	"(b) the L2 reorg epilogue of C03."
 
 func BoundsC09(tier string) map[string]any {
 	m := map[string]any{}
